@@ -50,6 +50,12 @@ def scenarios(tier):
                   ("XONLY", "I1"), ("API", "upd", "r", "rBig", False), ("API", "upd", "r", "cBig", False)],
                  max_states=cap, note="a region is enlarged (update accepted while printing) after points that it now "
                                       "covers have been visited"),
+        Scenario("c01-negative", World, dict(base, regions=["Rneg", "R"]),
+                 [("TRAVEL", "Ng"), ("TRAVEL", "Ngo"), ("TRAVEL", "O1"), ("PRINT", "Ng"), ("PRINT", "Ngo"), ("TRAVEL", "I1"),
+                  ("XONLY", "Ng"), ("YONLY", "Ngo"), ("REL",), ("ABS",), ("TRAVEL", "Eps"), ("TRACKPROBE",)],
+                 max_depth=5 if q else 8, max_states=cap,
+                 note="negative coordinates (a region there, and relative moves after them); a point 4 "
+                                      "micrometres outside the border"),
         Scenario("c01-modes", World, dict(base, regions=["R"], emax=1), MODES, max_depth=5 if q else 8,
                  max_states=cap, note="relative positioning and inch units: depth-bounded (rounding makes states "
                                       "path-dependent)"),
